@@ -807,7 +807,11 @@ class Checker:
 		for stage in range(len(edits) + 1):
 			if stage:
 				field, value = edits[stage - 1]
-				self.apply_edit(transaction, field, value)
+				try:
+					self.apply_edit(transaction, field, value)
+				except (TypeError, ValueError, AttributeError) as ex:
+					self.ctx.notes.append(f'in-place edit {field} not applicable to {type(transaction).__name__}: {type(ex).__name__}')
+					break
 				applied.append(f'{field}={value.hex() if isinstance(value, bytes) else value}')
 			current = transaction.serialize()
 			args = {'network': network, 'seed': seed, 'secret': secret, 'transaction': buffer, 'edits': ';'.join(applied), 'stage': stage}
@@ -1110,7 +1114,7 @@ def _history_round(checker, rng, network):
 			fresh = facade.transaction_factory.deserialize(buffer)
 			edits = []
 			for field in rng.sample(['deadline', 'fee', 'timestamp', 'amount', 'message', 'transactions_hash'], 6):
-				if not hasattr(fresh, field):
+				if getattr(fresh, field, None) is None:
 					continue
 				current = getattr(fresh, field)
 				if field in ('message',):
